@@ -349,3 +349,39 @@ def register(ex):
     X['_ZNSt6localeC1Ev'] = x_locale_ctor; X['_ZNSt6localeC2Ev'] = x_locale_ctor
     X['_ZNSt6localeC1ERKS_'] = x_locale_copy; X['_ZNSt6localeC2ERKS_'] = x_locale_copy
     X['_ZNSt6localeD1Ev'] = lambda st, a, nm: None; X['_ZNSt6localeD2Ev'] = lambda st, a, nm: None
+
+    # ---- wide-character libc primitives used by std::char_traits<wchar_t> (wchar_t = 32 bit)
+    I32W = IntT(32)
+    def x_wmemcpy(st, a, nm):
+        n = conc_len(ex, st, a[2], nm)
+        mem_copy(ex, st, a[0], a[1], n * 4, nm != 'wmemcpy'); return a[0]
+    X['wmemcpy'] = x_wmemcpy; X['wmemmove'] = x_wmemcpy
+
+    def x_wmemset(st, a, nm):
+        n = conc_len(ex, st, a[2], nm); p = a[0] if isinstance(a[0], Ptr) else ex.i2p(a[0])
+        for i in range(n): ex.store(st, I32W, a[1], ex.padd(p, 4 * i))
+        return a[0]
+    X['wmemset'] = x_wmemset
+
+    def x_wcslen(st, a, nm):
+        p = a[0] if isinstance(a[0], Ptr) else ex.i2p(a[0])
+        for i in range(1 << 16):
+            c = ex.load(st, I32W, ex.padd(p, 4 * i))
+            if c is None: ex.ub(st, 'wcslen reads uninitialised memory')
+            if is_sym(c): raise Inconclusive('wcslen over symbolic characters')
+            if c == 0: return i
+        raise Inconclusive('wcslen: no terminator')
+    X['wcslen'] = x_wcslen
+
+    def x_wmemcmp(st, a, nm):
+        n = conc_len(ex, st, a[2], nm)
+        pa = a[0] if isinstance(a[0], Ptr) else ex.i2p(a[0]); pb = a[1] if isinstance(a[1], Ptr) else ex.i2p(a[1])
+        r = z3.BitVecVal(0, 32)
+        for i in range(n - 1, -1, -1):
+            x = ex.load(st, I32W, ex.padd(pa, 4 * i)); y = ex.load(st, I32W, ex.padd(pb, 4 * i))
+            if x is None or y is None: ex.ub(st, 'wmemcmp reads uninitialised memory')
+            xi, yi = bv(x, 32), bv(y, 32)   # wchar_t is signed int on this target
+            r = z3.If(xi == yi, r, z3.If(xi < yi, z3.BitVecVal(mask(-1, 32), 32), z3.BitVecVal(1, 32)))
+        r = simp(r)
+        return r.as_long() if z3.is_bv_value(r) else r
+    X['wmemcmp'] = x_wmemcmp
